@@ -61,16 +61,16 @@ def _same_log(a, b):
     return True
 
 
-def scen_batcher(gaps, bt, rt, dur, mbs, mcb, keys=('a', 'b', 'a')):
+def scen_batcher(gaps, bt, rt, dur, mbs, mcb, keys=('a', 'b', 'a'), forms=FORMS):
     global LAST_INFO, RAW
-    logs = {form: _batch_run(form, gaps, keys, bt, rt, dur, mbs, mcb) for form in FORMS}
+    logs = {form: _batch_run(form, gaps, keys, bt, rt, dur, mbs, mcb) for form in forms}
     RAW = logs
     devs = []
     if logs['class']['outcome'] != 'ok':
         devs.append('reference-run-' + logs['class']['outcome'])
-    if not _same_log(logs['class'], logs['direct']):
+    if 'direct' in logs and not _same_log(logs['class'], logs['direct']):
         devs.append('direct-decorator-form-behaves-differently')
-    if not _same_log(logs['class'], logs['options']):
+    if 'options' in logs and not _same_log(logs['class'], logs['options']):
         # name the option when it can be told apart by re-running the reference with the default value
         devs.append('options-decorator-form-behaves-differently')
     if not tracing():
@@ -232,10 +232,23 @@ def cells(prop, tier):
     out = []
     q = 'quick'
     for mbs, mcb in ((2, 1), (1, 2)):
-        for sfx, pre in B.product_pre([B.parts('gaps[1]', [(0, 4), (5, 12)]), B.parts('gaps[2]', [(0, 6), (7, 14)])]):
+        for sfx, pre in B.product_pre([B.parts('gaps[1]', [(0, 4), (5, 12)]), B.parts('gaps[2]', [(0, 6), (7, 14)]),
+                                       B.parts('rt', [(0, 0), (1, 4), (5, 9)])]):
             out.append(Cell(name='c15_batcher_mbs%d_mcb%d_p%s' % (mbs, mcb, sfx), sig='gaps: List[int], bt: int, rt: int, dur: int',
-                            pre=['len(gaps) == 3 and gaps[0] == 0 and 3 <= bt <= 8 and 0 <= rt <= 9 and 0 <= dur <= 2', pre],
-                            body='H.scen_batcher(gaps, bt, rt, dur, %d, %d)' % (mbs, mcb), tier=q, timeout=400, family='batcher', weight=4))
+                            pre=['len(gaps) == 3 and gaps[0] == 0 and 3 <= bt <= 8 and 0 <= dur <= 1', pre],
+                            body='H.scen_batcher(gaps, bt, rt, dur, %d, %d)' % (mbs, mcb), tier='thorough',
+                            timeout=1500, family='batcher', weight=4))
+    for forms in (('class', 'options'), ('class', 'direct')):
+        for sfx, pre in B.product_pre([B.parts('gaps[2]', [(0, 4), (5, 8), (9, 12)]), B.parts('rt', [(0, 0), (1, 3), (4, 8)])]):
+            out.append(Cell(name='c15_batcher_%s_p%s' % (forms[1], sfx), sig='gaps: List[int], bt: int, rt: int',
+                            pre=['len(gaps) == 3 and gaps[0] == 0 and 0 <= gaps[1] <= 2 and 4 <= bt <= 5', pre],
+                            body='H.scen_batcher(gaps, bt, rt, 1, 2, 1, ("a", "b", "a"), %r)' % (forms,), tier=q,
+                            timeout=600, family='batcher', weight=4))
+    out.append(Cell(name='c15_batcher_mbs1_mcb2_short', sig='gaps: List[int], bt: int, rt: int, dur: int',
+                    pre=['len(gaps) == 3 and gaps[0] == 0 and all(0 <= g <= 3 for g in gaps) and bt == 3 and 0 <= rt <= 2 and dur == 2'],
+                    body='H.scen_batcher(gaps, bt, rt, dur, 1, 2, ("a", "b", "a"), ("class", "options"))', tier=q, timeout=600, family='batcher', weight=4))
+    if tier != 'thorough':
+        out = [c for c in out if c.tier == 'quick']
     out.append(Cell(name='c15_buffer_cpc', sig='pauses: List[int], t: int, dur: int, fails: List[bool]',
                     pre=['len(pauses) == 1 and 0 <= pauses[0] <= 20 and 3 <= t <= 15 and 0 <= dur <= 20 and len(fails) == 1'],
                     body="H.scen_buffer('cpc', pauses, t, dur, fails)", tier=q, timeout=400, family='buffer', weight=3))
